@@ -64,6 +64,12 @@ func c07Bases(a *refsem.Arch) []*seccomp.Policy {
 	bases = append(bases, &seccomp.Policy{DefaultAction: seccomp.ActionAllow, Syscalls: []seccomp.SyscallGroup{
 		{Action: seccomp.ActionAllow, Names: []string{lo, mid}, NamesWithCondtions: []seccomp.NameWithConditions{{Name: hi, Conditions: seccomp.ArgumentConditions{eq(1, 7)}}}},
 		{Action: seccomp.ActionErrno, Names: []string{mid, hi}}}})
+	// trailing group and only group whose action equals the default action
+	bases = append(bases, &seccomp.Policy{DefaultAction: seccomp.ActionAllow, Syscalls: []seccomp.SyscallGroup{
+		{Action: seccomp.ActionErrno, Names: []string{lo, mid}},
+		{Action: seccomp.ActionAllow, Names: []string{mid, hi}, NamesWithCondtions: []seccomp.NameWithConditions{{Name: m2, Conditions: seccomp.ArgumentConditions{eq(2, 9)}}}}}})
+	bases = append(bases, &seccomp.Policy{DefaultAction: seccomp.ActionErrno, Syscalls: []seccomp.SyscallGroup{
+		{Action: seccomp.ActionErrno, Names: []string{lo, hi}, NamesWithCondtions: []seccomp.NameWithConditions{{Name: mid, Conditions: seccomp.ArgumentConditions{eq(0, 1), eq(5, 2)}}}}}})
 	// a long one: 100 names + conditional entries -> program > 255 instructions
 	long := &seccomp.Policy{DefaultAction: seccomp.ActionAllow, Syscalls: []seccomp.SyscallGroup{{Action: seccomp.ActionErrno}}}
 	for i := 10; i < 110 && i < len(n); i++ {
@@ -259,7 +265,7 @@ func c07Jobs(tier string) []c07Job {
 	for _, a := range refsem.Archs() {
 		for bi, b := range c07Bases(a) {
 			limit := 0
-			if bi == 6 {
+			if bi == 8 {
 				limit = 6
 			}
 			ds := c07Defects(a, b, limit)
@@ -268,7 +274,7 @@ func c07Jobs(tier string) []c07Job {
 				jobs = append(jobs, c07Job{a: a, base: b, d1: &ds[i], label: fmt.Sprintf("base%d", bi)})
 			}
 			// pairs of defects (different kinds) on the smaller bases
-			if bi < 6 && (tier == "thorough" || a.Name == "x86_64") {
+			if bi < 8 && (tier == "thorough" || a.Name == "x86_64") {
 				stride := 1
 				if tier == "quick" {
 					stride = 7
@@ -382,7 +388,7 @@ func checkC07(tier, replay string) int {
 	}
 	// acceptance obligations: every defect-free policy of the small scopes must compile
 	acceptanceScopes(r, tier)
-	r.finish("8 defect kinds (unknown default action, no groups, unknown name in 10 spellings, duplicate name at every ordered pair / insertion point, conditional+unconditional at every pairing, argument index > 5, unimplemented operation in 9 spellings, table-less architecture) injected at every position of 7 valid base policies on 4 architectures, plus pairs of defects; oracle: error and nil program and no panic; every defect-free policy (bases, varied valid forms, scopes S1<=2 groups and S3 small) must be accepted; accepted policies outside both sets (empty condition list) must still decide like the reference, i.e. never drop a rule; non-trivial = accepted policies with >= 2 decisions (the rejected ones are counted under counters.defective_policies)")
+	r.finish("8 defect kinds (unknown default action, no groups, unknown name in 10 spellings, duplicate name at every ordered pair / insertion point, conditional+unconditional at every pairing, argument index > 5, unimplemented operation in 9 spellings, table-less architecture) injected at every position of 9 valid base policies (incl. leading, trailing and only groups whose action equals the default) on 4 architectures, plus pairs of defects; oracle: error and nil program and no panic; every defect-free policy (bases, varied valid forms, scopes S1<=2 groups and S3 small) must be accepted; accepted policies outside both sets (empty condition list) must still decide like the reference, i.e. never drop a rule; non-trivial = accepted policies with >= 2 decisions (the rejected ones are counted under counters.defective_policies)")
 	ctx.Cov["distinct_nontrivial"] = r.nontriv + ctx.Counter("defective_policies")
 	ctx.Assumptions = []string{"refsem.Valid encodes the defect list of the statement; policies with an empty condition list are in neither set and only required to be compiled faithfully if accepted"}
 	return ctx.Finish()
